@@ -13,6 +13,7 @@ import TableauVerif.Model.FieldProp
 import TableauVerif.Spec.C12
 import TableauVerif.Model.Time
 import TableauVerif.Spec.C20
+import TableauVerif.Model.TextFmt
 import TableauVerif.Model.Options
 import TableauVerif.Model.Excel
 import TableauVerif.Model.Xerrors
@@ -282,6 +283,9 @@ def c04 (fn : String) (a : List String) : Option String := do
     -- odd variants carry exactly one bad cell (in a merger book, which a named-workbook run does not convert)
     some (if v % 2 == 1 && named == "0" then "same err" else "same ok")
   | "o.c04.det", [_, _, _, obs] => some (if obs.startsWith "same " then "holds" else "FAILS")
+  | "c06.squeeze", [t] => some (encStr (TextFmt.squeeze (← decStr? t)))
+  | "c06.rt", _ => some "json=1 text=1 bin=1"     -- the three files decode to the message (codecs: trusted laws; squeeze: C06_squeeze_keeps_literals)
+  | "o.c06.rt", args => some (if args.getLast? == some "json=1 text=1 bin=1" then "holds" else "FAILS")
   | "c16.hist", _ => some "same"      -- C16_refines: every call behaves as in a fresh process
   | "o.c16.hist", args => some (if args.getLast? == some "same" then "holds" else "FAILS")
   | _, _ => none
@@ -301,7 +305,7 @@ def dispatch (line : String) : String :=
       else if fn.startsWith "c20." || fn.startsWith "o.c20." then c20 fn args
       else if fn.startsWith "c05." || fn.startsWith "o.c05." then c05 fn args
       else if fn.startsWith "c11." || fn.startsWith "o.c11." then c11 fn args
-      else if fn.startsWith "c04." || fn.startsWith "o.c04." || fn.startsWith "c16." || fn.startsWith "o.c16." then c04 fn args
+      else if fn.startsWith "c04." || fn.startsWith "o.c04." || fn.startsWith "c16." || fn.startsWith "o.c16." || fn.startsWith "c06." || fn.startsWith "o.c06." then c04 fn args
       else if fn.startsWith "tp." || fn.startsWith "o.tp." || fn.startsWith "c01." || fn.startsWith "o.c01." || fn.startsWith "w.c01." then tp fn args
       else none
     r.getD "bad-op"
